@@ -84,6 +84,14 @@ def outcome(fn):
         return 'raise', e
 
 
+def rd(fn):
+    """outcome of a *single-object read*: ('ok', neuron) | ('none', None) when the reader returned None | ('raise', exc)"""
+    st, v = outcome(fn)
+    if st == 'ok' and v is None:
+        return 'none', None
+    return st, v
+
+
 ID_CLASSES = ['seq1', 'shuffled', 'sparse', 'zero', 'large', 'reversed']
 
 
@@ -301,12 +309,12 @@ def case_lean2navis(ctx, case):
         how = case.get('how', 'infofile')
         if how == 'infofile':
             (d / 'info').write_text(json.dumps(info))
-            st, res = outcome(lambda: navis.read_precomputed(str(d / 'sk7')))
+            st, res = rd(lambda: navis.read_precomputed(str(d / 'sk7')))
         elif how == 'dict':
-            st, res = outcome(lambda: navis.read_precomputed(str(d / 'sk7'), datatype='skeleton', info=info))
+            st, res = rd(lambda: navis.read_precomputed(str(d / 'sk7'), datatype='skeleton', info=info))
         else:
-            st, res = outcome(lambda: navis.read_precomputed(raw, datatype='skeleton', info=info))
-        if st == 'raise':
+            st, res = rd(lambda: navis.read_precomputed(raw, datatype='skeleton', info=info))
+        if st != 'ok':
             ctx.oracle(False, f'navis cannot read a well-formed skeleton file produced by the Lean encoder '
                               f'({len(specs)} vertex attributes): {type(res).__name__}: {str(res)[:150]}', case)
             return
@@ -397,7 +405,7 @@ def case_mesh(ctx, case):
             ctx.oracle((d / f'{m.id}:0').exists() and json.loads((d / f'{m.id}:0').read_text()) == {'fragments': [str(m.id)]},
                        'mesh manifest missing / wrong', case)
         # Lean encoder -> navis reader (bytes)
-        st, res = outcome(lambda: navis.read_precomputed(bytes.fromhex(ctx.ask('c14.enc_mesh ' + mesh_payload(v, f))), datatype='mesh'))
+        st, res = rd(lambda: navis.read_precomputed(bytes.fromhex(ctx.ask('c14.enc_mesh ' + mesh_payload(v, f))), datatype='mesh'))
         ctx.oracle(st == 'ok' and mesh_obs(res) == want, f'navis reader on Lean-encoded mesh bytes: {res!r}'[:200], case)
 
 
@@ -421,7 +429,7 @@ def case_trunc_skel(ctx, case):
         for k in offsets:
             cut = raw[:k]
             (d / 'f1').write_bytes(cut)
-            st, res = outcome(lambda: read_one_skel(d / 'f1', info, 'raise'))
+            st, res = rd(lambda: read_one_skel(d / 'f1', info, 'raise'))
             impl = None
             if st == 'ok':
                 t = tn_table(res, specs)
@@ -433,10 +441,11 @@ def case_trunc_skel(ctx, case):
             strict = ctx.ask(f'c14.dec_skel {specs_payload(specs)} | {cut.hex()}')
             ctx.count('trunc_skel', 'accepted' if st == 'ok' else 'rejected')
             if strict == 'NONE':
-                ctx.oracle(st == 'raise', f'skeleton file of {len(raw)} bytes cut to {k} bytes is read "successfully" with '
+                ctx.oracle(st == 'raise', f'skeleton file of {len(raw)} bytes cut to {k} bytes ' +
+                           ("makes the reader return None instead of raising with " if st == 'none' else 'is read "successfully" with ') +
                                           f"errors='raise' ({None if impl is None else len(impl['verts'])} nodes, parents "
                                           f"{None if impl is None else impl['parents']}); the independent decoder rejects it",
-                           sub, signature='PrecomputedSkeletonReader.read_buffer/truncated-at-item-boundary/accepted')
+                           sub, signature='PrecomputedSkeletonReader.read_buffer/truncated-at-item-boundary/accepted' if st == 'ok' else None)
             else:
                 ctx.oracle(st == 'ok', f'complete file rejected at {k}', sub)
 
@@ -450,7 +459,7 @@ def case_trunc_mesh(ctx, case):
         for k in offsets:
             cut = raw[:k]
             (d / 'm1').write_bytes(cut)
-            st, res = outcome(lambda: navis.read_precomputed(str(d / 'm1'), datatype='mesh', errors='raise'))
+            st, res = rd(lambda: navis.read_precomputed(str(d / 'm1'), datatype='mesh', errors='raise'))
             sub = dict(case, offsets=[k])
             mod = parse_mesh(ctx.ask('c14.navis_mesh ' + cut.hex()))
             # MeshNeuron(process=True) drops unreferenced vertices: compare what the *reader* decoded only when
@@ -465,7 +474,7 @@ def case_trunc_mesh(ctx, case):
             if strict == 'NONE':
                 ctx.oracle(st == 'raise', f'mesh file of {len(raw)} bytes ({len(v)} vertices) cut to {k} bytes is read '
                                           f'"successfully" with errors=\'raise\'; the independent decoder rejects it',
-                           sub, signature='PrecomputedMeshReader.read_buffer/truncated-vertex-block/accepted')
+                           sub, signature='PrecomputedMeshReader.read_buffer/truncated-vertex-block/accepted' if st == 'ok' else None)
 
 
 def case_bytesio_policy(ctx, case):
@@ -703,7 +712,7 @@ def case_batch(ctx, case):
 
 
 def _navis_accepts(fmt, data):
-    st, _ = outcome(lambda: navis.read_precomputed(data, datatype='skeleton' if fmt == 'pre_skel' else 'mesh'))
+    st, _ = rd(lambda: navis.read_precomputed(data, datatype='skeleton' if fmt == 'pre_skel' else 'mesh'))
     return st == 'ok'
 
 
@@ -746,8 +755,8 @@ def case_nrrd_vox(ctx, case):
                    f'NRRD header `space directions` = {sd.tolist()} does not record voxel size {mags}', case)
         ctx.oracle(list(hdr.get('space units', [])) == [uname] * 3, f'NRRD header `space units` = {hdr.get("space units")} != {uname}', case)
         model = ctx.ask(f'c14.nrrd voxels {int(mags[0] * 4)} {int(mags[1] * 4)} {int(mags[2] * 4)}').split()[1]
-        st, res = outcome(lambda: navis.read_nrrd(str(fn), fmt='{id:int}.nrrd'))
-        if st == 'raise':
+        st, res = rd(lambda: navis.read_nrrd(str(fn), fmt='{id:int}.nrrd'))
+        if st != 'ok':
             ctx.oracle(False, f'read_nrrd raises on the file write_nrrd produced: {res}', case)
             return
         ctx.oracle(np.array_equal(res.grid, want) and res.grid.dtype == want.dtype, 'navis NRRD round trip: voxel values differ', case)
@@ -759,8 +768,8 @@ def case_nrrd_vox(ctx, case):
         # image -> Dotprops conversion: one point per non-zero voxel, in physical units, units = 1 <unit>
         nz = np.argwhere(want > 0)
         if len(nz) >= 5:
-            st, dp = outcome(lambda: navis.read_nrrd(str(fn), output='dotprops', k=3))
-            if st == 'raise':
+            st, dp = rd(lambda: navis.read_nrrd(str(fn), output='dotprops', k=3))
+            if st != 'ok':
                 ctx.oracle(False, f"read_nrrd(output='dotprops') on a voxel file raises {dp}", case)
             else:
                 exp = sorted(map(tuple, (nz * np.asarray(mags, dtype=float)).tolist()))
@@ -794,8 +803,8 @@ def case_nrrd_dp(ctx, case):
         ctx.oracle(np.array_equal(sd, np.diag(mags)) and list(hdr.get('space units', [])) == [uname] * 3,
                    'NRRD header of Dotprops does not record units', case)
         # navis reader, as documented (k comes from the header)
-        st, res = outcome(lambda: navis.read_nrrd(str(fn), output='dotprops'))
-        if st == 'raise':
+        st, res = rd(lambda: navis.read_nrrd(str(fn), output='dotprops'))
+        if st != 'ok':
             ctx.oracle(False, f"read_nrrd(output='dotprops') fails on the file write_nrrd produced: {type(res).__name__}: {str(res)[:100]}", case)
             return
         ctx.oracle(isinstance(res.k, (int, np.integer)) and int(res.k) == int(dp.k),
@@ -1045,8 +1054,8 @@ def case_meshfile(ctx, case):
         else:
             ok = np.array_equal(np.asarray(t.vertices), wv) and np.array_equal(np.asarray(t.faces), wf)
         ctx.oracle(bool(ok), f'independent mesh decoder (.{ext}): vertices/faces differ from what was written', case)
-        st, res = outcome(lambda: navis.read_mesh(str(fn), fmt='{name}_{id:int}.' + ext))
-        if st == 'raise':
+        st, res = rd(lambda: navis.read_mesh(str(fn), fmt='{name}_{id:int}.' + ext))
+        if st != 'ok':
             ctx.oracle(False, f'read_mesh(.{ext}) raises {type(res).__name__}: {res}', case)
             return
         rv, rf = np.asarray(res.vertices, dtype=float), np.asarray(res.faces)
